@@ -3,7 +3,8 @@
    boxes at scale 2^MaxDepth: a cell is a sequence (one entry per domain dimension) of pairs <<lo, hi>>.          *)
 EXTENDS VOArith, TLC
 
-Pow2(n) == IF n = 0 THEN 1 ELSE IF n = 1 THEN 2 ELSE IF n = 2 THEN 4 ELSE IF n = 3 THEN 8 ELSE IF n = 4 THEN 16 ELSE IF n = 5 THEN 32 ELSE 64
+RECURSIVE Pow2(_)
+Pow2(n) == IF n = 0 THEN 1 ELSE IF n = 1 THEN 2 ELSE IF n = 2 THEN 4 ELSE IF n = 3 THEN 8 ELSE IF n = 4 THEN 16 ELSE IF n = 5 THEN 32 ELSE 2 * Pow2(n - 1)
 Vol(c)  == IF Len(c) = 1 THEN c[1][2] - c[1][1]
            ELSE IF Len(c) = 2 THEN (c[1][2] - c[1][1]) * (c[2][2] - c[2][1])
            ELSE (c[1][2] - c[1][1]) * (c[2][2] - c[2][1]) * (c[3][2] - c[3][1])
